@@ -343,6 +343,10 @@ class BaseTemplate:
         sha = get_pkg_digest()
         sha.update(body.encode('utf-8', 'ignore'))
         sha.update(class_name)
+        # A free name is compiled differently when it is the name of a
+        # Python builtin - and that is a property of the process (an
+        # application may have added names, e.g. ``gettext.install()``).
+        sha.update(';'.join(sorted(Compiler.global_builtins)).encode('utf-8'))
         digest = sha.hexdigest()
 
         filename = str(self.filename)
